@@ -90,6 +90,19 @@ def build() -> Check:
         for t in traces[:1]:
             ck.sample({"cell": st, "trace": trace_sig(t)})
     ck.floor("function_entries_judged", n_user, 3)
+    if ck.tier == "thorough":
+        # cross-invocation composition: every history reachable through crashes at every event / suspensions / backend
+        # transitions, for the at-most-once mode: the function is never entered twice for one attempt number
+        from sa.compose import explore
+
+        all_cells = {s_: pm.run_cell(ci, s_, faults=True) for s_ in pm.statuses}
+        seen, findings, n_steps = explore("STEP", all_cells, MODE_KEY, AT_MOST)
+        second = [f for f in findings if f[0] == "second-entry"]
+        ck.analysed["history_states"] = len(seen)
+        ck.analysed["history_transitions"] = n_steps
+        ck.ob("R4.at-most-once-across-invocations", construct, not second,
+              (second[0][1] + " | witness: " + " / ".join(second[0][2])[-500:]) if second else f"{len(seen)} abstract history states, {n_steps} transitions")
+        ck.sample({"history_states": [f"{h.status}/entered={h.entered}/done={h.done}" for h in list(seen)[:8]]})
     return ck
 
 
